@@ -206,6 +206,108 @@ func (n *NEO) getCandidates(""", """		putErr := d.PutStorageConvertible(n.ID, ke
 func (n *NEO) getCandidates(""")])]),
  ("isblocked-nil-test-reordered", ["C01", "C05"], "Policy.IsBlocked: the storage fallback written with a local and `nil != item`",
   [("pkg/core/native/policy.go", [("return dao.GetStorageItem(p.ID, key) != nil", "item := dao.GetStorageItem(p.ID, key)\n\t\treturn nil != item")])]),
+ ("varint-estimator-as-switch", ["C17"], "the length-prefix estimator written as a tagless switch",
+  [("pkg/io/size.go", [("""	if value < 0xFD {
+		size = 1 // unit8
+	} else if value <= 0xFFFF {
+		size = 3 // byte + uint16
+	} else {
+		size = 5 // byte + uint32
+	}""", """	switch {
+	case value < 0xFD:
+		size = 1 // unit8
+	case value <= 0xFFFF:
+		size = 3 // byte + uint16
+	default:
+		size = 5 // byte + uint32
+	}""")])]),
+ ("merkleblock-rename-count", ["C17"], "MerkleBlock.DecodeBinary: the unsigned count renamed",
+  [("pkg/network/payload/merkleblock.go", [rn("count", "n64")])]),
+ ("compress-flag-after-body", ["C17"], "tryCompressPayload: the flag is computed in a local and assigned after the body",
+  [("pkg/network/message.go", [("""	m.Flags &^= Compressed
+	if enableCompression {""", """	flags := m.Flags &^ Compressed
+	if enableCompression {"""), ("""					m.Flags |= Compressed
+""", """					flags |= Compressed
+"""), ("""	m.compressedPayload = compressedPayload
+	return nil
+}""", """	m.compressedPayload = compressedPayload
+	m.Flags = flags
+	return nil
+}""")])]),
+ ("policy-cut-in-helper", ["C19", "C07"], "getVerifiedTx: the policy cut extracted into a helper",
+  [("pkg/consensus/consensus.go", [("""	if len(txx) > 0 {
+		txx = s.Chain.ApplyPolicyToTxSet(txx)
+	}
+
+	res := make([]dbft.Transaction[util.Uint256], len(txx))""", """	txx = s.cutByPolicy(txx)
+
+	res := make([]dbft.Transaction[util.Uint256], len(txx))"""), ("""func (s *service) getValidators(txes ...dbft.Transaction[util.Uint256]) []dbft.PublicKey {""", """func (s *service) cutByPolicy(set []*transaction.Transaction) []*transaction.Transaction {
+	if len(set) == 0 {
+		return set
+	}
+	return s.Chain.ApplyPolicyToTxSet(set)
+}
+
+func (s *service) getValidators(txes ...dbft.Transaction[util.Uint256]) []dbft.PublicKey {""")])]),
+ ("addblock-rename-expected", ["C06", "C20"], "AddBlock: local expectedHeight renamed, lock statements untouched",
+  [("pkg/core/blockchain.go", [rn("expectedHeight", "nextIndex")])]),
+ ("definesyncstage-rename-locals", ["C20"], "defineSyncStage: the temporary pool and the processed set renamed",
+  [("pkg/core/statesync/module.go", [rn("seen", "processed"), rn("nPaths", "known")])]),
+ ("triestore-start-reset-nil", ["C10", "C03"], "TrieStore.Seek: the start is reset with nil instead of an empty slice",
+  [("pkg/core/mpt/trie_store.go", [("""			fromP = []byte{}
+		} else {
+			cmp := bytes.Compare(path, fromP)""", """			fromP = nil
+		} else {
+			cmp := bytes.Compare(path, fromP)"""), ("""				return
+			}
+			fromP = []byte{}""", """				return
+			}
+			fromP = nil""")])]),
+ ("stateroot-mode-through-local", ["C11", "C03"], "JumpToState: the mode passes through a local",
+  [("pkg/core/stateroot/module.go", [("""	s.localHeight.Store(sr.Index)
+	s.mpt = mpt.NewTrie(mpt.NewHashNode(sr.Root), s.mode, s.Store)
+}
+
+// ResetState""", """	s.localHeight.Store(sr.Index)
+	trieMode := s.mode
+	s.mpt = mpt.NewTrie(mpt.NewHashNode(sr.Root), trieMode, s.Store)
+}
+
+// ResetState""")])]),
+ ("loadtoken-two-flag-tests", ["C16"], "LoadToken: the flag test written as two tests joined by ||",
+  [("pkg/core/interop/contract/call.go", [("""	if !ctx.GetCallFlags().Has(callflag.ReadStates | callflag.AllowCall) {""", """	if fs := ctx.GetCallFlags(); !fs.Has(callflag.ReadStates) || !fs.Has(callflag.AllowCall) {""")])]),
+ ("changeview-guard-swapped", ["C17", "C19"], "changeView.DecodeBinary: operands of the reason test swapped",
+  [("pkg/consensus/change_view.go", [("""	if c.reason == dbft.CVTxInvalid || c.reason == dbft.CVTxRejectedByPolicy {
+		r.ReadArray(&c.rejectedHashes)""", """	if dbft.CVTxRejectedByPolicy == c.reason || c.reason == dbft.CVTxInvalid {
+		r.ReadArray(&c.rejectedHashes)""")])]),
+ ("recovery-context-assigned-after", ["C17", "C19"], "recoveryMessage.DecodeBinary: the nested message is created with new and the context assigned afterwards",
+  [("pkg/consensus/recovery_message.go", [("""		m.prepareRequest = &message{stateRootEnabled: m.stateRootEnabled}""", """		m.prepareRequest = new(message)
+		m.prepareRequest.stateRootEnabled = m.stateRootEnabled""")])]),
+ ("stackitem-count-unsigned-compare", ["C17"], "stack item decoder: the array count is compared as an unsigned value before the conversion",
+  [("pkg/vm/stackitem/serialization.go", [("""		size := int(r.ReadVarUint())
+		if size < 0 || size > r.limit {
+			r.Err = errTooBigElements
+			return nil
+		}
+		arr := make([]Item, size)""", """		n := r.ReadVarUint()
+		if n > uint64(r.limit) {
+			r.Err = errTooBigElements
+			return nil
+		}
+		size := int(n)
+		arr := make([]Item, size)""")])]),
+ ("mapkey-validation-error-local", ["C17"], "stack item decoder: the key validation result kept in a local",
+  [("pkg/vm/stackitem/serialization.go", [("""			if err := IsValidMapKey(key); err != nil {
+				r.Err = err
+				return nil
+			}""", """			keyErr := IsValidMapKey(key)
+			if keyErr != nil {
+				r.Err = keyErr
+				return nil
+			}""")])]),
+ ("flush-height-through-local", ["C11"], "AddMPTBatch: the flush height passes through a local",
+  [("pkg/core/stateroot/module.go", [("""	mpt.Flush(index)""", """	h := index
+	mpt.Flush(h)""")])]),
 ]
 
 out = "/verif/benign"
